@@ -19,8 +19,6 @@ def plans(ctx):
             R.Plan("t1c", "S_t1c", emit_mod=10, max_inst=1, max_pw=2),
             R.Plan("t1d", "S_t1d", emit_mod=1, max_inst=1, max_pw=3),
             R.Plan("noxq", "S_noxq", emit_mod=1, max_inst=3, max_pw=2, stray=2, junk=True),
-            R.Plan("noxqc", "S_noxq", emit_mod=1, max_inst=2, max_pw=1, stray=1,
-                   opts={"modules": ("iauth_class",), "rules": [{"name": "rz", "class": "cdef"}]}),
             R.Plan("sim", "S_t1a", simulate="num=60", depth=40, workers=8, rich=True, max_inst=6, max_pw=3, stray=1, junk=True)]
 
 
